@@ -477,44 +477,95 @@ def r_creator_dtype(c):
                 and any(k.arg == "arg" and ast.unparse(k.value) in ("'dtype'", '"dtype"')
                         for k in x.keywords)
                 and f"{ep}.dtype" in ast.unparse(x) for x in ast.walk(e))
+        def const_values(name):
+            """the string constants a local is bound to (None when it is bound to
+            anything else)"""
+            vals = []
+            for a in ast.walk(fd):
+                if isinstance(a, (ast.Assign, ast.AnnAssign)) and a.value is not None and any(
+                        isinstance(t, ast.Name) and t.id == name for t in (
+                            a.targets if isinstance(a, ast.Assign) else [a.target])):
+                    if isinstance(a.value, ast.Constant) and isinstance(a.value.value, str):
+                        vals.append(a.value.value)
+                    else:
+                        return None
+            return vals or None
+
+        def guard_for(t, var, val):
+            """guard() of a test in which the local `var` (the creator's name) is
+            known to be `val`: 0 undecided, +1/-1 as guard(), 'never' when the test
+            cannot be true"""
+            conj = t.values if isinstance(t, ast.BoolOp) and isinstance(t.op, ast.And) else [t]
+            g = 0
+            for x in conj:
+                if var is not None and isinstance(x, ast.Compare) and len(x.ops) == 1 \
+                        and isinstance(x.left, ast.Name) and x.left.id == var:
+                    rhs = x.comparators[0]
+                    cs = None
+                    if isinstance(rhs, ast.Constant):
+                        cs = {rhs.value}
+                    elif isinstance(rhs, (ast.Tuple, ast.List, ast.Set)) and all(
+                            isinstance(e_, ast.Constant) for e_ in rhs.elts):
+                        cs = {e_.value for e_ in rhs.elts}
+                    if cs is not None:
+                        pos = isinstance(x.ops[0], (ast.Eq, ast.In))
+                        if (val in cs) != pos:
+                            return "never"
+                        continue
+                gx = guard(x)
+                if gx > 0:
+                    g = 1
+                elif gx < 0 and len(conj) == 1:
+                    g = -1
+            return g
         for call in ast.walk(fd):
             if not (isinstance(call, ast.Call) and ast.unparse(call.func) == "ast.Call"
                     and call.args and isinstance(call.args[0], ast.Call)
                     and ast.unparse(call.args[0].func) == "ast.Attribute"
-                    and len(call.args[0].args) == 2
-                    and isinstance(call.args[0].args[1], ast.Constant)
-                    and call.args[0].args[1].value in CREATORS):
+                    and len(call.args[0].args) == 2):
                 continue
-            creator = call.args[0].args[1].value
-            n += 1
-            kws = next((k.value for k in call.keywords if k.arg == "keywords"), None)
-            default_guard = False
-            if isinstance(kws, ast.IfExp):
-                # keywords=[] if <default dtype> else [dtype keyword]
-                g = guard(kws.test)
-                if g:
-                    dflt, other = (kws.body, kws.orelse) if g > 0 else (kws.orelse, kws.body)
-                    has_dtype = dtype_in(other) and (dtype_in(dflt)
-                                                     or not creator.endswith("_like"))
-                else:
-                    has_dtype = dtype_in(kws.body) and dtype_in(kws.orelse)
+            nm = call.args[0].args[1]
+            var = None
+            if isinstance(nm, ast.Constant):
+                creators = [nm.value] if nm.value in CREATORS else []
+            elif isinstance(nm, ast.Name):
+                var = nm.id
+                creators = [v for v in (const_values(nm.id) or []) if v in CREATORS]
             else:
-                has_dtype = kws is not None and dtype_in(kws)
-            p = call
-            while p is not fd:
-                par = p._parent
-                if isinstance(par, ast.If) and (
-                        (p in par.body and guard(par.test) > 0)
-                        or (p in par.orelse and guard(par.test) < 0)):
-                    default_guard = True
-                p = par
-            ok = has_dtype or (default_guard and not creator.endswith("_like"))
-            c.check(ok, "R14-CONSUME", f"NumpyCodegenMapper.{mn}",
-                    f"creates-with-the-node's-dtype:{creator}", m.loc(ci.module, call),
-                    f"`{creator}(...)` is emitted without dtype={ep}.dtype (and not under a "
-                    "test that the dtype is the default float): the generated program "
-                    "returns another dtype than the expression declares "
-                    "(zeros_like(a, dtype=int32) comes back as float64)")
+                creators = []
+            kws = next((k.value for k in call.keywords if k.arg == "keywords"), None)
+            for creator in sorted(set(creators)):
+                n += 1
+                default_guard = False
+                if isinstance(kws, ast.IfExp):
+                    # keywords=[] if <default dtype> else [dtype keyword]
+                    g = guard_for(kws.test, var, creator)
+                    if g == "never":
+                        has_dtype = dtype_in(kws.orelse)
+                    elif g:
+                        dflt, other = (kws.body, kws.orelse) if g > 0 \
+                            else (kws.orelse, kws.body)
+                        has_dtype = dtype_in(other) and (dtype_in(dflt)
+                                                         or not creator.endswith("_like"))
+                    else:
+                        has_dtype = dtype_in(kws.body) and dtype_in(kws.orelse)
+                else:
+                    has_dtype = kws is not None and dtype_in(kws)
+                p = call
+                while p is not fd:
+                    par = p._parent
+                    if isinstance(par, ast.If) and (
+                            (p in par.body and guard(par.test) > 0)
+                            or (p in par.orelse and guard(par.test) < 0)):
+                        default_guard = True
+                    p = par
+                ok = has_dtype or (default_guard and not creator.endswith("_like"))
+                c.check(ok, "R14-CONSUME", f"NumpyCodegenMapper.{mn}",
+                        f"creates-with-the-node's-dtype:{creator}", m.loc(ci.module, call),
+                        f"`{creator}(...)` is emitted without dtype={ep}.dtype (and not under a "
+                        "test that the dtype is the default float): the generated program "
+                        "returns another dtype than the expression declares "
+                        "(zeros_like(a, dtype=int32) comes back as float64)")
     if n < 2:
         raise AnalysisError(f"only {n} array-creating emissions found (floor 2)")
 
